@@ -530,6 +530,17 @@ pub fn c13_variants(tier: &str, words: &[u32]) -> Vec<Variant> {
             if mask & 1 != 0 {
                 api.push(Ev::SetConfig(Box::new(Cfg { announce: None, ..cfg.clone() })));
             }
+            // enabling a task that is off (refused: nothing would ever arm
+            // its timer), one at a time, whatever else is on
+            if mask & 1 == 0 {
+                api.push(Ev::SetConfig(Box::new(Cfg { announce: Some((500, 1)), ..cfg.clone() })));
+            }
+            if mask & 2 == 0 {
+                api.push(Ev::SetConfig(Box::new(Cfg { announce_down: Some((700, 1)), ..cfg.clone() })));
+            }
+            if mask & 4 == 0 {
+                api.push(Ev::SetConfig(Box::new(Cfg { gossip: Some((200, 1)), ..cfg.clone() })));
+            }
             s.alpha = Alpha {
                 srcs: vec![(id(B, 0), 0, true)],
                 kinds: vec![Kind::Gossip, Kind::Ack(0), Kind::TurnUndead],
